@@ -19,6 +19,8 @@ import (
 	"fmt"
 	"os"
 	"reflect"
+	"runtime"
+	"strings"
 	"sync"
 	"sync/atomic"
 	"time"
@@ -36,7 +38,7 @@ func stressMain(args []string) {
 	out := map[string]any{"mode": *mode, "rounds": *rounds, "workers": *workers}
 	switch *mode {
 	case "mutators":
-		out["problems"] = stressMutators(*rounds, *workers, *seed)
+		out["problems"] = append(stressMutators(*rounds, *workers, *seed), stressResetWindow(*rounds/10+3)...)
 	case "queries":
 		out["problems"] = stressQueries(*rounds, *workers, *seed)
 	case "options":
@@ -218,6 +220,103 @@ func stressMutators(rounds, workers int, seed uint64) []string {
 					}
 					return true
 				})
+			}
+		}()
+	}
+	return problems
+}
+
+// stressResetWindow: Reset of a very long stack (its critical section then
+// lasts long enough for other goroutines to arrive in the middle of it)
+// against a goroutine that notices the content is gone and then calls Pop,
+// Insert and Push.  Those three calls come after the Reset in every
+// sequential order, so: Pop finds nothing, Insert succeeds, and the stack
+// ends as [b c]; nobody panics, the stack stays initialised.
+func stressResetWindow(rounds int) []string {
+	var problems []string
+	const n = 1 << 18
+	vals := make([]any, n)
+	for i := range vals {
+		vals[i] = i
+	}
+	for round := 0; round < rounds; round++ {
+		s := stk.Basic()
+		if round%2 == 1 {
+			s.SetFIFO(true)
+		}
+		s.SetMutex()
+		s.Push(vals...)
+		if s.Len() != n {
+			problems = append(problems, fmt.Sprintf("reset round %d: %d of %d elements stored", round, s.Len(), n))
+			continue
+		}
+		var wg sync.WaitGroup
+		var popOK, insOK, timedOut bool
+		var popV any
+		var panics []string
+		var pmu sync.Mutex
+		guard := func(who string) {
+			if r := recover(); r != nil {
+				pmu.Lock()
+				panics = append(panics, fmt.Sprintf("%s: %v", who, r))
+				pmu.Unlock()
+			}
+		}
+		wg.Add(2)
+		go func() {
+			defer wg.Done()
+			defer guard("Reset")
+			s.Reset()
+		}()
+		go func() {
+			defer wg.Done()
+			defer guard("Pop/Insert/Push")
+			deadline := time.Now().Add(30 * time.Second)
+			for s.Len() == n {
+				if time.Now().After(deadline) {
+					timedOut = true
+					return
+				}
+				runtime.Gosched()
+			}
+			popV, popOK = s.Pop()
+			insOK = s.Insert("b", 0)
+			s.Push("c")
+		}()
+		finished := make(chan bool, 1)
+		go func() { wg.Wait(); finished <- true }()
+		select {
+		case <-finished:
+		case <-time.After(90 * time.Second):
+			return append(problems, fmt.Sprintf("reset round %d: Reset against Pop/Insert/Push did not finish within 90s (deadlock)", round))
+		}
+		for _, p := range panics {
+			problems = append(problems, fmt.Sprintf("reset round %d: panic in %s", round, p))
+		}
+		if timedOut || len(panics) > 0 {
+			if timedOut {
+				problems = append(problems, fmt.Sprintf("reset round %d: the content never went away", round))
+			}
+			continue
+		}
+		func() {
+			defer func() {
+				if r := recover(); r != nil {
+					problems = append(problems, fmt.Sprintf("reset round %d: panic after the run: %v", round, r))
+				}
+			}()
+			if !s.IsInit() {
+				problems = append(problems, fmt.Sprintf("reset round %d: stack no longer initialised", round))
+				return
+			}
+			var got []string
+			for i := 0; i < s.Len() && i < 6; i++ {
+				v, _ := s.Index(i)
+				got = append(got, fmt.Sprint(v))
+			}
+			if popOK || !insOK || s.Len() != 2 || strings.Join(got, " ") != "b c" {
+				problems = append(problems, fmt.Sprintf("reset round %d: after the content was seen gone: Pop = (%v,%v), Insert(b,0) = %v, final content %v (len %d): no sequential order of Reset, Pop, Insert, Push gives that (want (nil,false), true, [b c])",
+					round, popV, popOK, insOK, got, s.Len()))
 			}
 		}()
 	}
